@@ -197,8 +197,8 @@ PROPS = {
     },
     'C10': {
         'level': 'proof',
-        'level_text': 'Verus proves on the real Tracker (bodies verbatim): prepare implements the furthest-position rule (tracked position = maximum seen, attempts dropped exactly when a further position arrives, never moves backwards); the reporting entry points (empty_stack, out_of_bound, repeat_too_many_times) and record_during_with keep the position monotone and inside the same input, keep the rule-frame stack balanced and the polarity unchanged; during/positive_during/negative_during and record_during_with run their closure exactly once on the tracker and return its result unchanged (this is also the soundness lemma of rewrite R1). Positions come from Inputs satisfying the boundary invariant (C09). Truthfulness of the listed rules (every expected rule fails / every unexpected rule matches at the reported location), rendering (String/format!, BTreeMap) and determinism are bounded stand-ins (enumeration on generated parsers).',
-        'level_note': NOTE_COMMON + 'The attempts map (BTreeMap) and per-entry vectors are opaque: clear/get_entry/record are contract-only stubs (assumed). Position::cmp shim. "Every listed rule really fails/matches there" is not decided by any contract, only by the bounded enumeration.',
+        'level_text': 'Verus proves on the real Tracker (bodies verbatim): prepare implements the furthest-position rule (tracked position = maximum seen, attempts dropped exactly when a further position arrives, never moves backwards); the reporting entry points (empty_stack, out_of_bound, repeat_too_many_times) and record_during_with keep the position monotone and inside the same input, keep the rule-frame stack balanced and the polarity unchanged; record (verbatim, with same_with_last) implements the polarity rule: a rule is recorded exactly when its outcome contradicts the current polarity and its position is (now) the furthest one — a failure under positive polarity goes to the EXPECTED list, a success under negative polarity to the UNEXPECTED list of the entry keyed by the enclosing rule frame, the other list untouched, no duplicate of the last element; during/positive_during/negative_during and record_during_with run their closure exactly once on the tracker and return its result unchanged (this is also the soundness lemma of rewrite R1). Positions come from Inputs satisfying the boundary invariant (C09). Truthfulness of the listed rules (every expected rule fails / every unexpected rule matches at the reported location), rendering (String/format!, BTreeMap) and determinism are bounded stand-ins (enumeration on generated parsers).',
+        'level_note': NOTE_COMMON + 'The attempts map (BTreeMap) is opaque (uninterpreted entry_view / entry_key, an axiom for the empty map): clear and get_entry are contract-only stubs (assumed); Eq on rule values is a shim. Position::cmp shim. "Every listed rule really fails/matches there" is not decided by any contract, only by the bounded enumeration.',
         'technique': TECH,
         'verus': ['tracker', 'wrappers'],
         'expanded': False,
